@@ -172,16 +172,10 @@ Definition is_fatal (o : obs) (s : rt) : Prop :=
   (o_fatal o = true <-> r_silent s = false /\ r_name s = true) /\
   o_dbg o = false /\ o_err o = false /\ o_warn o = false.
 
-Lemma assert_failed_cases rv s (o : obs) :
-  (o_ctl o = o_ctl (spec_assert_failed rv s) /\ o_val o = o_val (spec_assert_failed rv s) /\
-   o_dbg o = o_dbg (spec_assert_failed rv s) /\ o_warn o = o_warn (spec_assert_failed rv s) /\
-   o_err o = o_err (spec_assert_failed rv s) /\ o_fatal o = o_fatal (spec_assert_failed rv s)) ->
-  (r_level s < 1 -> warns_and_returns o rv s) /\ (r_level s >= 1 -> is_fatal o s).
-Proof.
-  unfold spec_assert_failed, warns_and_returns, is_fatal.
-  destruct (Z.geb_spec (r_level s) 1) as [Hr|Hr]; simpl;
-    intros (-> & -> & -> & -> & -> & ->); rewrite can_print_true; split; intros Hx; try lia; tauto.
-Qed.
+Ltac crunch :=
+  simpl; rewrite ?can_print_true; repeat split; intros;
+  try discriminate; try lia; try tauto; auto;
+  try (exfalso; intuition (discriminate || lia)).
 
 Lemma assert_semantics : forall n rv, In (n, rv) assert_family -> forall e s,
   e_c e >= 1 ->
@@ -191,15 +185,10 @@ Lemma assert_semantics : forall n rv, In (n, rv) assert_family -> forall e s,
   (r_cond s = false -> r_level s < 1 -> warns_and_returns o rv s) /\
   (r_cond s = false -> r_level s >= 1 -> is_fatal o s).
 Proof.
-  intros n rv H e s Hc. rewrite (assert_spec n rv H). simpl.
-  apply geb_ge in Hc. rewrite Hc.
-  destruct (r_cond s); simpl.
-  - repeat split; auto; discriminate.
-  - split; [reflexivity|]. split; [unfold spec_assert_failed; destruct (_ >=? _); reflexivity|].
-    split; [discriminate|].
-    destruct (assert_failed_cases rv s (with_cond (spec_assert_failed rv s))) as (H1 & H2).
-    + simpl. repeat split.
-    + split; auto.
+  intros n rv H e s Hc. rewrite (assert_spec n rv H).
+  unfold warns_and_returns, is_fatal, printed, spec, spec_assert_failed.
+  destruct (Z.geb_spec (e_c e) 1); [|lia].
+  destruct (r_cond s); destruct (Z.geb_spec (r_level s) 1); crunch.
 Qed.
 
 Lemma assert_vanishes : forall n rv, In (n, rv) assert_family -> forall e s,
@@ -215,16 +204,10 @@ Lemma notreached_semantics : forall n rv, In (n, rv) notreached_family -> forall
   (e_c e < 1 \/ e_fileline e = false -> o = bare_return rv) /\
   o_cond o = 0%nat /\ o_args o = 0%nat.
 Proof.
-  intros n rv H e s. rewrite (notreached_spec n rv H). simpl.
-  destruct (Z.geb_spec (e_c e) 1) as [Hc|Hc]; destruct (e_fileline e); simpl.
-  - destruct (assert_failed_cases rv s (spec_assert_failed rv s)) as (H1 & H2); [repeat split|].
-    repeat split; auto.
-    + intros [Hx|Hx]; [lia|discriminate].
-    + unfold spec_assert_failed. destruct (_ >=? _); reflexivity.
-    + unfold spec_assert_failed. destruct (_ >=? _); reflexivity.
-  - repeat split; auto; intros; discriminate.
-  - repeat split; auto; intros; lia.
-  - repeat split; auto; intros; lia.
+  intros n rv H e s. rewrite (notreached_spec n rv H).
+  unfold warns_and_returns, is_fatal, printed, spec, spec_assert_failed.
+  destruct (Z.geb_spec (e_c e) 1); destruct (e_fileline e);
+    destruct (Z.geb_spec (r_level s) 1); crunch.
 Qed.
 
 Lemma require_semantics : forall n rv, In (n, rv) require_family -> forall e s,
@@ -235,18 +218,9 @@ Lemma require_semantics : forall n rv, In (n, rv) require_family -> forall e s,
      o_ctl o = Ret rv /\ o_val o = b2n rv /\
      (o_dbg o = true <-> e_c e >= 1 /\ r_level s >= 1 /\ r_silent s = false /\ r_name s = true)).
 Proof.
-  intros n rv H e s. rewrite (require_spec n rv H). simpl.
-  destruct (r_cond s); simpl.
-  - repeat split; auto; discriminate.
-  - repeat split; auto; try discriminate.
-    + intros Hx. apply andb_true_iff in Hx. destruct Hx as (Hx & _). apply andb_true_iff in Hx.
-      destruct Hx as (Hx & _). now apply geb_ge.
-    + intros Hx. apply andb_true_iff in Hx. destruct Hx as (Hx & _). apply andb_true_iff in Hx.
-      destruct Hx as (_ & Hx). now apply geb_ge.
-    + intros Hx. apply andb_true_iff in Hx. destruct Hx as (_ & Hx). now apply can_print_true in Hx.
-    + intros Hx. apply andb_true_iff in Hx. destruct Hx as (_ & Hx). now apply can_print_true in Hx.
-    + intros (H1 & H2 & H3 & H4). apply geb_ge in H1, H2. rewrite H1, H2. simpl.
-      apply can_print_true. auto.
+  intros n rv H e s. rewrite (require_spec n rv H).
+  unfold printed, spec.
+  destruct (r_cond s); destruct (Z.geb_spec (e_c e) 1); destruct (Z.geb_spec (r_level s) 1); crunch.
 Qed.
 
 Lemma abort_fatal : forall n, In n abort_family -> forall e s, is_fatal (behaviour n e s) s.
